@@ -170,9 +170,9 @@ var chanProtocol = map[string]tabEntry{
 	"pebbles.(*subscriptionEntry).Listen | subscriptionEntry.respCh | select-recv":                                              {1, "event loop"},
 	"pebbles.(*subscriptionEntry).Listen | subscriptionEntry.closeCh | select-recv":                                             {1, "event loop: stop request"},
 	"pebbles.(*subscriptionEntry).Listen$1 | subscriptionEntry.queryerCloseCh | send":                                           {1, "tells the upstream closer goroutine to close the upstream connection (blocking rendezvous)"},
-	"pebbles.(*subscriptionEntry).Listen$1 | subscriptionEntry.queryerCloseCh | close":                                          {1, "closed by its only sender after its only send"},
-	"pebbles.(*subscriptionEntry).Listen$1 | subscriptionEntry.closeCh | close":                                                 {1, "closed by the receiver; a stop request blocked in its send ends under Close's recover (repair 24353ad; R8a.own computes it)"},
-	"pebbles.(*subscriptionEntry).Listen$1 | subscriptionEntry.respCh | close":                                                  {1, "closed by the receiver; every send of the upstream reader is under a recover of its own goroutine (repair 29cb2f6; R8a.own computes it)"},
+	"pebbles.(*subscriptionEntry).Listen | subscriptionEntry.queryerCloseCh | close":                                            {1, "closed by its only sender after its only send"},
+	"pebbles.(*subscriptionEntry).Listen | subscriptionEntry.closeCh | close":                                                   {1, "closed by the receiver; a stop request blocked in its send ends under Close's recover (repair 24353ad; R8a.own computes it)"},
+	"pebbles.(*subscriptionEntry).Listen | subscriptionEntry.respCh | close":                                                    {1, "closed by the receiver; every send of the upstream reader is under a recover of its own goroutine (repair 29cb2f6; R8a.own computes it)"},
 	"pebbles.sendHeartbeat | Ticker.C | select-recv":                                                                            {1, "keep-alive tick"},
 	"pebbles.sendHeartbeat | result of context.Context.Done | select-recv":                                                      {1, "cancelled when the handler returns"},
 	"queryer.(*MultiOpQueryer).Subscribe | local chan error of queryer.(*MultiOpQueryer).Subscribe | make":                      {1, "errCh: result of the upstream handshake"},
@@ -213,11 +213,15 @@ func ruleChannels(r *Run) {
 			top = top[:i]
 		}
 		hasOwn[top] = true
-		// who creates and who closes a channel stays tied to the exact function (literal
-		// included): moving a close from the spawner into the reader changes who may still
-		// be sending; sends, receives and selects are grouped per top-level function
+		// who creates and who closes a channel stays tied to the goroutine that does it: moving
+		// a close from the spawner into the reader it starts changes who may still be sending.
+		// A literal or helper that is only called or deferred by one function runs in that
+		// function's goroutine (`defer func(){ close(…) }()` → `defer se.release()` is layout);
+		// sends, receives and selects are grouped per top-level function
 		if !strings.HasSuffix(k, "| close") && !strings.HasSuffix(k, "| make") {
 			f = top
+		} else if tf := r.P.Fn(f); tf != nil {
+			f = fnName(r.goroutineCtx(tf))
 		}
 		nk := f + " | " + parts[1]
 		if old, ok := proto[nk]; ok {
@@ -268,7 +272,7 @@ func ruleChannels(r *Run) {
 	for _, op := range ops {
 		key := owner(op.fn) + " | " + op.ch + " | " + op.kind
 		if op.kind == "close" || op.kind == "make" {
-			key = fnName(op.fn) + " | " + op.ch + " | " + op.kind
+			key = fnName(r.goroutineCtx(op.fn)) + " | " + op.ch + " | " + op.kind
 		}
 		seen[key]++
 		site := r.P.pos(op.ins.Pos())
@@ -1058,20 +1062,8 @@ func ruleUpstreamForward(r *Run) {
 				if !isSend {
 					return false
 				}
-				al, ok := unwrap(snd.X).(*ssa.Alloc)
-				if !ok {
-					return false
-				}
-				for _, ref := range *al.Referrers() {
-					if fa, ok := ref.(*ssa.FieldAddr); ok && fieldOf(fa) != nil && fieldOf(fa).Name() == "Errors" {
-						for _, r2 := range *fa.Referrers() {
-							if st, ok := r2.(*ssa.Store); ok && st.Addr == ssa.Value(fa) && !isNilConst(unwrap(st.Val)) {
-								return true
-							}
-						}
-					}
-				}
-				return false
+				ev, ok := sentErrors(snd.X)
+				return ok && !isNilConst(unwrap(ev))
 			})
 			r.Check(okFwd, "R12b.err", fnName(fn), "upstream "+which+" frame forwarded", r.P.pos(iff.Cond.Pos()),
 				"a response with its errors filled in is sent on the result channel before the reader returns",
@@ -1090,21 +1082,13 @@ func ruleUpstreamForward(r *Run) {
 			if !ok {
 				continue
 			}
-			al, ok := unwrap(snd.X).(*ssa.Alloc)
-			if !ok || !strings.HasSuffix(al.Type().String(), "requests.Response") {
+			errsVal, ok := sentErrors(snd.X)
+			if !ok {
 				continue
 			}
-			for _, ref := range *al.Referrers() {
-				fa, ok := ref.(*ssa.FieldAddr)
-				if !ok || fieldOf(fa) == nil || fieldOf(fa).Name() != "Errors" {
-					continue
-				}
-				for _, r2 := range *fa.Referrers() {
-					st, ok := r2.(*ssa.Store)
-					if !ok || st.Addr != ssa.Value(fa) {
-						continue
-					}
-					ld, ok := unwrap(st.Val).(*ssa.UnOp)
+			for range []int{0} {
+				for range []int{0} {
+					ld, ok := unwrap(errsVal).(*ssa.UnOp)
 					if !ok || ld.Op != token.MUL {
 						continue // built here (a literal, FormatError): not taken from a frame
 					}
@@ -1364,4 +1348,109 @@ func wsIOCall(c *ssa.CallCommon) bool {
 		}
 	}
 	return false
+}
+
+// sentErrors: for a value that is sent as *requests.Response, the value its Errors field was
+// given — in a literal built here, or in a constructor of the module that builds one and is
+// handed the errors as an argument (`requests.NewErrorResponse(errs)`). ok=false when v is not
+// a response built in one of these ways.
+func sentErrors(v ssa.Value) (ssa.Value, bool) {
+	v = unwrap(v)
+	fromAlloc := func(al *ssa.Alloc) (ssa.Value, bool) {
+		for _, ref := range *al.Referrers() {
+			if fa, ok := ref.(*ssa.FieldAddr); ok && fieldOf(fa) != nil && fieldOf(fa).Name() == "Errors" {
+				for _, r2 := range *fa.Referrers() {
+					if st, ok := r2.(*ssa.Store); ok && st.Addr == ssa.Value(fa) {
+						return st.Val, true
+					}
+				}
+			}
+		}
+		return nil, false
+	}
+	switch x := v.(type) {
+	case *ssa.Alloc:
+		if !strings.HasSuffix(x.Type().String(), "requests.Response") {
+			return nil, false
+		}
+		return fromAlloc(x)
+	case *ssa.Call:
+		sc := x.Call.StaticCallee()
+		if sc == nil || !inModule(sc) || sc.Blocks == nil {
+			return nil, false
+		}
+		var out ssa.Value
+		for _, ret := range returnsOf(sc) {
+			vals := retVals(ret)
+			if len(vals) != 1 {
+				return nil, false
+			}
+			al, ok := unwrap(vals[0]).(*ssa.Alloc)
+			if !ok {
+				return nil, false
+			}
+			ev, ok := fromAlloc(al)
+			if !ok {
+				return nil, false
+			}
+			p, isParam := unwrap(ev).(*ssa.Parameter)
+			if !isParam {
+				return ev, true // built inside the constructor
+			}
+			for i, q := range sc.Params {
+				if q == p && i < len(x.Call.Args) {
+					out = x.Call.Args[i]
+				}
+			}
+		}
+		return out, out != nil
+	}
+	return nil, false
+}
+
+// goroutineCtx: the function in whose goroutine fn runs, as far as that is plain from the
+// code: a literal that its parent only calls or defers (never starts with go), and a named
+// function with a single caller that calls or defers it, run in that function's goroutine.
+func (r *Run) goroutineCtx(fn *ssa.Function) *ssa.Function {
+	for depth := 0; depth < 4; depth++ {
+		if parent := fn.Parent(); parent != nil {
+			started := false
+			for _, ins := range allInstrs(parent) {
+				g, ok := ins.(*ssa.Go)
+				if !ok {
+					continue
+				}
+				if mc, ok := g.Call.Value.(*ssa.MakeClosure); ok && mc.Fn == ssa.Value(fn) {
+					started = true
+				}
+				if g.Call.StaticCallee() == fn {
+					started = true
+				}
+			}
+			if started {
+				return fn
+			}
+			fn = parent
+			continue
+		}
+		var caller *ssa.Function
+		single := true
+		for _, e := range r.P.CG.In[fn] {
+			if e.Kind == "param" {
+				continue
+			}
+			if _, spawned := e.Site.(*ssa.Go); spawned || e.Kind != "static" {
+				return fn
+			}
+			if caller != nil && caller != e.Caller {
+				single = false
+			}
+			caller = e.Caller
+		}
+		if caller == nil || !single || topFn(caller).Pkg != fn.Pkg || fn.Object() == nil || fn.Object().Exported() {
+			return fn
+		}
+		fn = caller
+	}
+	return fn
 }
